@@ -941,7 +941,7 @@ bool BarnettSmartVTMF_dlog::VerifiableMaskingProtocol_Verify
 	try
 	{
 		// verify the in-group properties
-		if (!CheckElement(c_1) || !CheckElement(c_2))
+		if (!CheckElement(m) || !CheckElement(c_1) || !CheckElement(c_2))
 			throw false;
 		
 		// invoke CP(c_1, c_2/m, g, h; r) as verifier
